@@ -18,7 +18,8 @@
 (***************************************************************************************)
 EXTENDS Naturals, Sequences, FiniteSets, TLC, Json, IOUtils, MasaOracle
 
-VARIABLES reg, sel, live, status, dflt, memo, act, l
+VARIABLES reg, sel, live, status, dflt, memo, act, l,
+          pairs   \* history: reduction-pair label -> first value seen (C20)
 
 Cat == INSTANCE MasaCatalog
 
@@ -42,7 +43,7 @@ TEvalAccept(p, sol, par, vec, fn, sig, args, cb, ret) ==
   \/ Relaxed("VALUE")
   \/ OracleAccept(p, sol, par, vec, fn, sig, args, cb, ret)
 
-\* args = <<scalars, direction index, number of index arguments>>; spatial gradient directions are
+\* args = <<scalars, direction index, number of index arguments, pair label>>; spatial gradient directions are
 \* 1..min(dimension, 3)
 TArgsRegular(sol, fn, sig, args) ==
   LET e == Cat!Catalog[CHOOSE i \in 1..Len(Cat!Catalog) : Cat!Catalog[i].name = sol]
@@ -54,7 +55,7 @@ M == INSTANCE Masa WITH Prec <- TPrec, Catalog <- Cat!Catalog, Build <- TBuild,
                         InitDflt <- TInitDflt, UseMemo <- ~Relaxed("MEMO"), EvalAccept <- TEvalAccept,
                         ArgsRegular <- TArgsRegular
 
-tvars == <<reg, sel, live, status, dflt, memo, act, l>>
+tvars == <<reg, sel, live, status, dflt, memo, act, l, pairs>>
 
 Range(s) == {s[i] : i \in DOMAIN s}
 Ev == Log[l]
@@ -82,7 +83,20 @@ TSetVec    == IsEvent("setv")    /\ M!SetVec(Ev.p, Ev.api, Ev.k, Ev.v, Out(Ev)) 
 TGetVec    == IsEvent("getv")    /\ M!GetVec(Ev.p, Ev.api, Ev.k, Out(Ev))                   /\ LiveBound(Ev)
 TDispP     == IsEvent("dispp")   /\ M!DisplayParam(Ev.p, Ev.api, Out(Ev))                   /\ LiveBound(Ev)
 TDispV     == IsEvent("dispv")   /\ M!DisplayVec(Ev.p, Ev.api, Out(Ev))                     /\ LiveBound(Ev)
-TEval      == IsEvent("eval")    /\ M!Eval(Ev.p, Ev.api, Ev.fn, Ev.sig, <<Ev.a, Ev.di, Ev.ni>>, Ev.cb, Out(Ev)) /\ LiveBound(Ev)
+\* C20: two evaluations that the history marks as a reduction pair (the same model seen through two
+\* catalogue entries, same precision) agree within roundoff of the common operator
+PairStep(e) ==
+  IF e.pair = "" \/ e.end # "ret" \/ ~UseOracle THEN UNCHANGED pairs
+  ELSE LET key == <<e.p, e.pair>> IN
+       IF key \in DOMAIN pairs
+       THEN /\ UNCHANGED pairs
+            /\ LET inst == reg[e.p][sel[e.p]]
+                    x == Expected(inst.sol, [k \in DOMAIN inst.par |-> M!ParVal(e.p, inst, k)],
+                                  [k \in DOMAIN inst.vec |-> M!VecVal(e.p, inst, k)],
+                                  e.fn, e.sig, <<e.a, e.di, e.ni, e.pair>>, e.cb, FALSE)
+                IN  Len(x) > 1 /\ NCloseTo(NFromStr(pairs[key]), NFromStr(e.ret), x, PairKBits, e.p)
+       ELSE pairs' = [k \in DOMAIN pairs \cup {key} |-> IF k = key THEN e.ret ELSE pairs[k]]
+TEval      == IsEvent("eval")    /\ M!Eval(Ev.p, Ev.api, Ev.fn, Ev.sig, <<Ev.a, Ev.di, Ev.ni, Ev.pair>>, Ev.cb, Out(Ev)) /\ LiveBound(Ev) /\ PairStep(Ev)
 
 \* "end": the script ran to completion; the process is still running, nothing changed
 TEnd == /\ IsEvent("end") /\ status = "run"
@@ -96,17 +110,20 @@ TFini == /\ IsEvent("fini")
 TReset == /\ IsEvent("reset")
           /\ reg' = [p \in TPrec |-> <<>>] /\ sel' = [p \in TPrec |-> "$none"]
           /\ live' = [p \in TPrec |-> 0] /\ status' = "run" /\ memo' = <<>>
-          /\ act' = [name |-> "start"] /\ UNCHANGED dflt
+          /\ act' = [name |-> "start"] /\ UNCHANGED dflt /\ pairs' = <<>>
 
-TNext == \/ TInit \/ TSelect \/ TList \/ TPrintId \/ TName \/ TDim
-         \/ TSetParam \/ TGetParam \/ TInitParam \/ TPurge \/ TSanity
-         \/ TSetVec \/ TGetVec \/ TDispP \/ TDispV \/ TEval
-         \/ TEnd \/ TFini \/ TReset
+TNext == \/ TEval
+         \/ TReset
+         \/ /\ UNCHANGED pairs
+            /\ \/ TInit \/ TSelect \/ TList \/ TPrintId \/ TName \/ TDim
+               \/ TSetParam \/ TGetParam \/ TInitParam \/ TPurge \/ TSanity
+               \/ TSetVec \/ TGetVec \/ TDispP \/ TDispV
+               \/ TEnd \/ TFini
 
 \* after exit(1) the process may only be followed by its fini record or a reset
 ExitedQuiet == status = "exited" => (l > Len(Log) \/ Log[l].op \in {"fini", "reset"})
 
-TInit0 == M!Init0 /\ l = 1
+TInit0 == M!Init0 /\ l = 1 /\ pairs = <<>>
 TSpec  == TInit0 /\ [][TNext]_tvars
 
 \* acceptance: every line consumed
